@@ -84,6 +84,15 @@ def check(case):
     if len(set(vm.values())) != len(vm):
         return [('reference-map-not-injective', repr(vm))]
     t = Tree(interp.to_node(case['tree']))
+    if case.get('parsed'):
+        # the tree comes from the parser (whatever the parser hands over besides the node must follow the relabelling)
+        import penman as _p
+        try:
+            t2 = _p.parse(_p.format(t, indent=None))
+        except _p.DecodeError:
+            t2 = None           # hand-built shapes (a concept branch after other branches) have no text form
+        if t2 is not None and t2.node == t.node:
+            t = t2
     m0 = build_model(spec)
     if case.get('touch'):
         # the same Tree object is used before it is relabelled (derived state must follow the relabelling)
@@ -166,6 +175,7 @@ def classes(case):
     s = tree_stats(node)
     if s['reent'] and s['aligned']: out.append('maybe-aligned-reentrancy')
     if _late_concept(node): out.append('concept-branch-not-first')
+    if case.get('parsed'): out.append('tree-from-parser')
     return out
 
 
@@ -240,7 +250,7 @@ def _cases(draw, large=False):
                 c = brs.pop(ix[0])
                 brs.insert(1 + (k - 1) % len(brs), c)
         mv(j)
-    return {'tree': j, 'model': spec, 'fmt': fmt_, 'touch': draw(st.booleans())}
+    return {'tree': j, 'model': spec, 'fmt': fmt_, 'touch': draw(st.booleans()), 'parsed': draw(st.integers(0, 2)) == 0}
 
 
 def _many_chunks(tier):
